@@ -163,14 +163,17 @@ func ParseStreamCallback(reader io.Reader, c Config, callback ParseCallback) err
 
 // ParseStream parses the contents of stream
 func (p Parser) ParseStream(reader io.Reader) {
+	errorSent := false
 	if err := ParseStreamCallback(reader, p.config, func(n *shared.ParserNode, err error) (stop bool, cbError error) {
 		if err != nil {
 			p.Errors <- err
+			errorSent = true
 			return true, err
 		}
 		p.Nodes <- n
 		return false, nil
-	}); err != nil {
+	}); err != nil && !errorSent {
+		// errors that do not come through the callback (e.g. failed read)
 		p.Errors <- err
 	}
 	p.Done <- true
